@@ -311,7 +311,14 @@ impl TmplGroup {
             Ok(())
         })
         .unwrap();
-        w.finish() + self.extra_runtime_string.as_str()
+        let mut s = w.finish();
+        if self.extra_runtime_string.len() > 0 {
+            if !s.ends_with(';') {
+                s.push(';');
+            }
+            s.push_str(&self.extra_runtime_string);
+        }
+        s
     }
 
     /// Output js runtime environment js var name list.
@@ -408,7 +415,7 @@ impl TmplGroup {
                 w.expr_stmt(|w| {
                     write!(
                         w,
-                        r#"R[{path}]=D({path},(require,exports,module)=>{{{}}})"#,
+                        "R[{path}]=D({path},(require,exports,module)=>{{{}\n}})",
                         script,
                         path = gen_lit_str(p)
                     )?;
